@@ -193,8 +193,9 @@ impl Repl {
                     let name = second_of_alist(prog0.clone())?;
                     let built_program = program_with_helper(vec![name], prog0);
                     let program = frontend(self.opts.clone(), &[built_program])?;
-                    self.evaluator
-                        .add_helper(&program.helpers[program.helpers.len() - 1]);
+                    if let Some(helper) = program.helpers.last() {
+                        self.evaluator.add_helper(helper);
+                    }
                     Ok(Some(Rc::new(BodyForm::Quoted(SExp::Nil(self.loc.clone())))))
                 } else {
                     frontend(self.opts.clone(), &parsed_program)
